@@ -11,7 +11,7 @@ class Gen:
         self.name = name
         self.mod = None
         for m in facts.mods:
-            if m['name'] == f'__nutype_{name}__':
+            if m['name'] == f'__nutype_{name}__' and (decl.get('module') is None or m['path'] == decl['module']):
                 self.mod = m
         self.modpath = self.mod['path'] if self.mod else None
         self.adt = None
